@@ -128,7 +128,7 @@ def c05_family(img, rng, quick, for_model=True):
     return fam
 
 
-BUDGET = {'quick': dict(pair=6_000_000, total=600_000_000), 'thorough': dict(pair=80_000_000, total=8_000_000_000)}
+BUDGET = {'quick': dict(pair=6_000_000, total=420_000_000), 'thorough': dict(pair=80_000_000, total=8_000_000_000)}
 
 
 def correspondence(ctx):
@@ -259,8 +259,8 @@ def peak_of(fmt, data, sizes):
     def every(i, pos):
         best[0] = max(best[0], sum(i.context_info.values()))
         for r in whitebox.regions(i).values():
-            if r.length < 0 or r.length > G.bound(fmt):
-                odd[0] = True
+            if not isinstance(r.length, int) or r.length < 0 or r.length > G.bound(fmt):
+                odd[0] = True           # no length at all, a negative one, or one above the bound
     insp = G.impl_run(fmt, data, sizes, every_chunk=every)[2]
     best[0] = max(best[0], sum(insp.context_info.values()))
     return best[0], odd[0]
@@ -316,6 +316,29 @@ def field_sweep(ctx, rng, fails, full):
                 return
 
 
+def unstructured_big(ctx, rng, fails, full):
+    """the property's own words: pure text and random data x one giant chunk.  Streams of 2 - 4 MiB of text,
+    random bytes and constant fill that carry no structure at all, to EVERY inspector class, as one giant chunk,
+    as 3 bytes then the rest, in 2 MiB reads, in 64 KiB reads and as a giant chunk after a dribble"""
+    sizes = [(2 << 20) + 4097] + ([4 << 20] if (full or not ctx.quick) else [])
+    for n in sizes:
+        line = G.rand_text(rng, 71) + b'\n'
+        streams = [('text', (line * (n // len(line) + 1))[:n]), ('random', rng.randbytes(n)),
+                   ('text-run', G.rand_text(rng, 900) + b'a' * (n - 900)), ('zeros', bytes(n)), ('ff', b'\xff' * n)]
+        if ctx.quick and not full:
+            streams = streams[:2]
+        for kind, data in streams:
+            for fmt in G.FORMATS:
+                img = G.Img(fmt, data, [], 'unstructured-big/%s' % kind)
+                fam = [('one', [n]), ('3+rest', [3, n - 3]), ('fixed2097152', G.fixed(n, 2 << 20)), ('fixed65536', G.fixed(n, 65536)),
+                       ('dribble+giant', [1, 2, 61, 448, n - 512])]
+                if ctx.quick and not full:
+                    fam = [f for f in fam if f[0] != 'fixed65536']         # the big/ family below has 64 KiB reads
+                ctx.count('search/unstructured-big/%s' % kind)
+                if check_image(ctx, img, fam, fails) and len(fails) >= 5:
+                    return
+
+
 def search(ctx, seeds, full=False):
     rng = ctx.rng
     fails = []
@@ -328,6 +351,9 @@ def search(ctx, seeds, full=False):
         check_image(ctx, ext, c05_family(ext, rng, ctx.quick, False), fails)
         if len(fails) >= 5:
             return fails
+    unstructured_big(ctx, rng, fails, full)
+    if len(fails) >= 5:
+        return fails
     field_sweep(ctx, rng, fails, full)
     if len(fails) >= 5:
         return fails
